@@ -37,6 +37,9 @@ def two_source_spec(f1, f2, pal, pol, srs):
 
 
 def case_spec(case):
+    if case["fam"] == "micro":
+        from ..sysmodel import micro_letters
+        return spec_from_forest(case["f"], case["pal"], case["pol"], case["srs"], src_vo=1.0, extra=micro_letters())
     if case["fam"] == "two":
         return two_source_spec(case["f"], case["f2"], case["pal"], case["pol"], case["srs"])
     return spec_from_forest(case["f"], case["pal"], case["pol"], case["srs"])
@@ -187,11 +190,16 @@ def gen_cases(tier, want_mirror=True):
             for f in zero.iter_forests(n):
                 for pol, srs in ((1, 0.0), (-1, 0.0), (1, SRS)):
                     yield dict(fam="zero", f=f, pal=pal, pol=pol, srs=srs, n=n)
+        from ..sysmodel import SIG_MICRO
+        for n in (1, 2, 3):
+            for f in Trees(*SIG_MICRO).iter_forests(n):
+                for pol, srs in ((1, 50.0), (1, 0.0), (-1, 0.0)):
+                    yield dict(fam="micro", f=f, pal=pal, pol=pol, srs=srs, n=n)
         from ..sysmodel import SIG_NEGTAB
         negtab = Trees(*SIG_NEGTAB)
         for n in (1, 2, 3):
             for f in negtab.iter_forests(n):
-                if "m" in str(f):
+                if "m" in str(f) or "LRq" in str(f):
                     for pol in (1, -1):
                         yield dict(fam="zero", f=f, pal=pal, pol=pol, srs=0.0, n=n)
         # the same structures reached through an edit history (freed / re-used node indices: a child may have a LOWER index than its parent),
